@@ -23,7 +23,7 @@ vars == <<G, procs, hist, nf, sc, S0, post, stepok, faultpc>>
 
 BaseCfg == [at |-> "hmac", rscopes |-> <<"offline">>, pkce_all |-> FALSE, pkce_pub |-> FALSE, pkce_plain |-> FALSE,
             par_enf |-> FALSE, no_rt_intro |-> FALSE, l_code |-> 2, l_at |-> 3, l_rt |-> 6, l_dev |-> 2, l_par |-> 2,
-            l_idt |-> 3, store |-> "mem"]
+            l_idt |-> 3, store |-> "mem", sess_noexp |-> FALSE]
 CfgStore(s) == [BaseCfg EXCEPT !.store = s]
 Full == <<"openid", "offline", "a">>
 
